@@ -5,7 +5,7 @@
  * from a rank-0-only section of the reader the workers are blocked in a receive, the harness then prints the
  * status and calls MPI_Abort(77), and output still in mpiexec's forwarding pipe could be lost).
  *
- *   part <np> <hex bytes | ->          rank 0 writes the bytes to a .meshb file, all ranks call the real
+ *   part <np> <hex bytes | -> [tag]    rank 0 writes the bytes to a .meshb file, all ranks call the real
  *                                      ref_part_by_extension; one line:
  *                                         <status>                       when the call failed
  *                                         ok | <rank 0 dump> | <rank 1 dump> ...
@@ -270,7 +270,7 @@ static void run_read(void) {
   st = ref_part_by_extension(&ref_grid, ref_mpi, path);
   if (np > 1 && 0 == me && REF_SUCCESS != st) {
     /* the workers are (in general) blocked inside the reader: report and end the job */
-    fprintf(out, "%s\n", h_status((int)st));
+    fprintf(out, "%s%s\n", pre_dump ? "orient-" : "", h_status((int)st));
     fflush(out);
     fsync(fileno(out));
     MPI_Abort(MPI_COMM_WORLD, 77);
@@ -278,7 +278,10 @@ static void run_read(void) {
   ist = (int)st;
   MPI_Allreduce(&ist, &worst, 1, MPI_INT, MPI_MAX, MPI_COMM_WORLD);
   if (0 != worst) {
-    if (0 == me) { fprintf(out, "%s\n", h_status(worst)); fflush(out); }
+    int reached = pre_dump ? 1 : 0, all_reached = 0;
+    MPI_Allreduce(&reached, &all_reached, 1, MPI_INT, MPI_MIN, MPI_COMM_WORLD);
+    /* `orient-`: the reader itself was done on every rank, ref_grid_inward_boundary_orientation failed */
+    if (0 == me) { fprintf(out, "%s%s\n", all_reached ? "orient-" : "", h_status(worst)); fflush(out); }
   } else {
     r_reset();
     r_put(pre_dump ? pre_dump : "no-pre-dump");
@@ -291,7 +294,7 @@ static void run_read(void) {
 
 static int op_part(void) {
   int bad = 0;
-  if (h_nw != 3 || !is_nat_tok(h_w[1]) || h_i(h_w[1]) != np) return 0;
+  if ((h_nw != 3 && h_nw != 4) || !is_nat_tok(h_w[1]) || h_i(h_w[1]) != np) return 0; /* 4th word: a tag for the oracle */
   if (0 == me) {
     const char *h = h_w[2];
     size_t l = strlen(h), i;
